@@ -28,8 +28,10 @@ def arg(k):
     return Index(ARG, Lit(INT, k, keep=True))
 
 
-def index_programs(length=5):
-    """yield (tag, Program).  All take `const int[] v`; v[0] is the index."""
+def index_programs(length=5, idx_lit=None):
+    """yield (tag, Program, length).  All take `const int[] v`; v[0] is the index, unless idx_lit is
+    given: then the index is that integer literal (a compile-time constant the compiler may reason about)."""
+    arg = (lambda k: Lit(INT, idx_lit)) if idx_lit is not None else globals()['arg']
     for el in (INT, BYTE, BOOL, STRING):
         for storage in ('local_lit', 'local_const_lit', 'vla', 'global', 'global_const', 'param', 'param_const', 'temp_lit'):
             for form in ('read', 'assign', 'opassign', 'read_then_more'):
